@@ -354,8 +354,19 @@ def run(out: core.Outcome) -> None:
         dfield = Emulsion(truth).get_phasefield(dgrid)
         dfield.data += 0.02 * np.random.default_rng(5).standard_normal(dfield.data.shape)
 
+        from droplets import SphericalDroplet
+
         def cands():
-            return [DiffuseDroplet(np.array(d.position) + 0.3, d.radius * 0.9, 1.0) for d in truth]
+            cs = [DiffuseDroplet(np.array(d.position) + 0.3, d.radius * 0.9, 1.0) for d in truth]
+            # a vanished plain spherical droplet outside the periodic cell, a tiny one between support points, and a
+            # candidate rebuilt from a row of a structured array (its data is a numpy.void, not a record)
+            cs.append(SphericalDroplet(np.array([3.0, 16.0 + 4.1]), 0.0))
+            cs.append(DiffuseDroplet(np.array([20.26, -3.74]), 0.05, None))
+            rows = np.array([cs[0].data], dtype=cs[0].data.dtype)
+            cs.append(DiffuseDroplet.from_data(rows[0]))
+            tiny = np.array([(np.array([9.26, 33.0]), 0.05, np.nan)], dtype=cs[0].data.dtype)
+            cs.append(DiffuseDroplet.from_data(tiny[0]))
+            return cs
 
         for budget in (None, 3):
             kw = {} if budget is None else {"least_squares_params": {"max_nfev": budget}}
